@@ -586,6 +586,25 @@ def rule_semi(ctx, prop):
             if not ok:
                 rep.violation(f"{f.key} next-statement-not-covered {V}",
                               f"a following {V} statement can start with `(` but is not examined", f.loc(), cfg)
+        # whether the next statement starts with `(` is a question about its *first* target / prefix: the parenthesis test
+        # is applied to `.iter().next()` / `.first()` / a direct accessor, never through a quantifier over all targets
+        members = [f] + [g for g in prog.fns("stylua_lib") if g.path.startswith(f.path + "::{closure")]
+        quant = []
+        tests = 0
+        for g in members:
+            for b, t in g.calls():
+                c = callee(t)
+                if re.search(r"Iterator>?::(all|any|last|nth|rev|skip|find|position|fold|filter|max_by|min_by)$", c.split("::<")[0]):
+                    quant.append(c.split("::")[-1].split("<")[0])
+                if re.search(r"has_parentheses$", c):
+                    tests += 1
+        rep.inst(f"{f.key} asks about the first target only", {"parenthesis tests": tests, "quantifiers": sorted(set(quant))}, cfg,
+                 ok=not quant and tests >= 1)
+        if quant:
+            rep.violation(f"{f.key} first-token-question-quantified {sorted(set(quant))}",
+                          f"check_stmt_requires_semicolon decides `the next statement starts with (` through "
+                          f"{sorted(set(quant))} over the statement's parts: only the first target decides how the statement "
+                          f"starts, so `x = y; (a).b, c = 1, 2` can lose the semicolon it needs", f.loc(), cfg)
         # format_block must consult it and build the `;` on the true edge
         fb = prog.fn("stylua_lib", "formatters::block::format_block")
         if rep.anchor(fb is not None, "format_block", cfg):
@@ -733,4 +752,83 @@ def rule_collapse(ctx, prop):
             if not ok:
                 rep.violation("stylua_lib::formatters::stmt::format_if collapse-not-guarded",
                               "the single-line if is built without is_if_guard(..) dominating it", f.loc(), cfg)
+    return rep
+
+
+# ---------------------------------------------------------------------------------------------------------------
+def _ast_ty(t):
+    t = t.replace("&", "").replace("mut ", "").strip()
+    return t.startswith("full_moon::ast::") or t == "full_moon::tokenizer::TokenReference"
+
+
+def _deep_roots(f, o, depth=0, seen=None):
+    """parameters / captured variables an operand is computed from, through every argument of every call"""
+    seen = seen if seen is not None else set()
+    out = set()
+    for r in provenance(f, o, through=None):
+        if r[0] in ("arg", "upvar"):
+            out.add((r[0], r[1]))
+        elif r[0] == "call" and depth < 8 and r[2] not in seen:
+            seen.add(r[2])
+            for a in f.blocks[r[2]]["term"]["args"]:
+                if not is_const(a):
+                    out |= _deep_roots(f, a, depth + 1, seen)
+    return out
+
+
+def rule_element(ctx, prop):
+    """R-ELEMENT: a closure that maps over child nodes rebuilds each child from that child."""
+    rep = Report(prop, "R-ELEMENT", "a closure of type |&T| -> T over child nodes builds the returned T from its own element: "
+                                    "no AST-typed part of the rebuilt node comes only from a captured sibling / parent node")
+    for cfg, prog in ctx.programs.items():
+        n = 0
+        for f in prog.fns("stylua_lib"):
+            if f.kind != "Closure" or "formatters::" not in f.path or f.argc < 2:
+                continue
+            rt = strip_ty(f.locals[0])
+            if not rt.startswith("full_moon::ast::") or strip_ty(f.locals[2]) != rt:
+                continue
+            if not forward_uses(f, 2):
+                continue      # `|_| captured.update(..)`: a closure that ignores its parameter is not a formatter of it
+            ups = f.upvars or []
+            ast_ups = {str(i) for i, ty in enumerate(ups) if _ast_ty(ty.replace("&", ""))}
+            for b, t in f.calls():
+                c = callee(t)
+                if not (c.startswith(rt + "::new") or c.startswith(rt + "::with_")):
+                    continue
+                args = t["args"][1:] if "::with_" in c else t["args"]
+                for ai, a in enumerate(args):
+                    if is_const(a) or not _ast_ty(f.local_ty(op_place(a)["l"])):
+                        continue
+                    n += 1
+                    roots = _deep_roots(f, a)
+                    from_elem = ("arg", 2) in roots
+                    from_outer = sorted(r[1] for r in roots if r[0] == "upvar" and str(r[1]) in ast_ups)
+                    ok = from_elem or not from_outer
+                    rep.inst(f"{f.key} {c.split('::')[-1]} argument {ai} derives from the element", None, cfg, ok=ok)
+                    if not ok:
+                        rep.violation(f"{f.key} child-built-from-other-node {c.split('::')[-1]} arg={ai}",
+                                      f"{f.path} rebuilds a {rt.split('::')[-1]} for each child, but argument {ai} of "
+                                      f"{c.split('::')[-1]} is computed from a captured node (capture {from_outer}: "
+                                      f"{[ups[int(i)] for i in from_outer]}) and not from the child itself: every child gets the "
+                                      f"parent's / sibling's expression", f.loc(t["sp"]), cfg)
+            # (2) nothing in the closure is computed from a captured node alone: every AST-typed argument of every call
+            # has the element among its sources (a helper fed with `parent.expression()` next to `child.then_token()`)
+            if ast_ups:
+                for b, t in f.calls():
+                    for ai, a in enumerate(t["args"]):
+                        if is_const(a) or not _ast_ty(f.local_ty(op_place(a)["l"])):
+                            continue
+                        roots = _deep_roots(f, a)
+                        from_outer = sorted(r[1] for r in roots if r[0] == "upvar" and str(r[1]) in ast_ups)
+                        if from_outer and ("arg", 2) not in roots:
+                            n += 1
+                            rep.inst(f"{f.key} {callee(t).split('::')[-1]} argument {ai} derives from the element", None, cfg, ok=False)
+                            rep.violation(f"{f.key} child-built-from-other-node {callee(t).split('::')[-1]} arg={ai}",
+                                          f"{f.path} maps over child nodes, but argument {ai} of {callee(t).split('::')[-1]} is "
+                                          f"taken from a captured node (capture {from_outer}: {[ups[int(i)] for i in from_outer]}) "
+                                          f"and not from the child: every child is rebuilt with the parent's / sibling's part",
+                                          f.loc(t["sp"]), cfg)
+        import extract
+        rep.floor("AST-typed constructor arguments in map-over-children closures", n, 2 if "luau" in extract.FEATURES[cfg] else 0, cfg)
     return rep
